@@ -23,6 +23,18 @@ CHECKS = {
    text='Bounded symbolic verification: (1) the real TransformedHamiltonian::leapfrog MIR for the three kinetic-energy kinds and both directions with the density/transformation as an arbitrary-result oracle - unrecoverable error => Err, recoverable => Divergence carrying the error, non-finite or too large energy error => Divergence with that error, otherwise Ok with finite energy error and finite log-density, collector notified exactly once; (2) the tree discards the faulty sub-tree at every fault position and returns Err iff the first fault reached is unrecoverable, with no reachable panic; (5) the mass-matrix collector rejects divergent draws near the start; (6) init_state rejects non-finite or zero-gradient starts.',
    note='FP64u policy for the energy comparison (uninterpreted arithmetic, IEEE comparisons, lemma proved bit-precisely); one inductive chain step; step-size search and variance update guards are claimed under C07/C08 once built; user-code panics outside',
    technique='SMT (z3) over symbolic execution of rustc MIR; fault position and kind are symbolic variables'),
+ 'C02': dict(level='model_checking', design='4/C02',
+   text='Bounded symbolic verification of the real TransformedHamiltonian::leapfrog / initialize_trajectory, TransformedPoint half-steps and DiagMassMatrix / LowRankMassMatrix transformation functions from the MIR over exact reals (dimension 1-2 quick, 1-3 thorough; rank 0 and 1): the step in whitened coordinates is the leapfrog scheme with the density evaluated at x\' = F(y\') and the gradient pulled back by J^T; for diagonal / rank-0 transformations it equals the textbook leapfrog for M^-1 = F F^T in the original space directly, for rank 1 through the discharged premises (F affine with Jacobian J, pull-back = J^T, F^-T J^T = id); forward then backward step returns to the start; the transformation is a bijection with consistent inverse, gradient pull-back and log-determinant; initialize_trajectory starts every trajectory with index 0, energy of the current transformation and N(0,I) momentum; ExactNormal conserves energy exactly on a standard normal.',
+   note='Math methods by algebraic meaning (C17 checks the CPU kernels), density as an uninterpreted function with uninterpreted gradient, low-rank representation invariant (unit eigenvector, vals_sqrt_inv = 1/vals_sqrt) assumed; rounding, rank > 1, the O(eps^2) statement and the ESH closed form are outside',
+   technique='SMT (z3, NRA + uninterpreted functions) over symbolic execution of rustc MIR; differential against the textbook scheme'),
+ 'C06': dict(level='model_checking', design='4/C06',
+   text='One call of the real GlobalStrategy::adapt(draw) MIR (with the real step-size Strategy / DualAverage / Adam code inlined) from an arbitrary schedule state satisfying an inductive invariant, for dual averaging, Adam and fixed step size with and without jitter: the invariant is preserved and established by GlobalStrategy::new (which must not panic for any num_tune >= 0), is_tuning() after adapt(d) <=> d < num_tune, the mass-matrix strategy is not touched from the final step-size window on, after warm-up no estimator advances and the installed step is (final averaged step) x jitter, the last tuning draw installs the averaged step; Progress.tuning is read after adapt() in NutsChain::draw and MclmcChain::draw (dominance on the MIR CFG). One inductive step covers warm-ups of any length.',
+   note='mass-matrix strategy, Hamiltonian, RNG and the step-size search are environment oracles; integers < 2^32, 1 <= growth <= 1024, 0 < jitter < 1; exact reals; three genuine defects found this way were repaired (fix: commits, see known_findings.json)',
+   technique='SMT (z3) over symbolic execution of rustc MIR; one-step induction from an arbitrary state + CFG dominance check'),
+ 'C09': dict(level='model_checking', design='4/C09',
+   text='Same one-step exploration of GlobalStrategy::adapt as C06, asserting the window schedule against a reference written from the property: a switch happens iff the background estimator holds a full window of accepted draws and the next (grown) window still fits before the final step-size window; after a switch the foreground is the old background and the background is empty; window size grows by the factor only on main-phase switches and never shrinks; A::adapt is called on switches and every update_freq draws; the first transformation change re-runs the step-size search, later ones do not; the symmetric acceptance statistic is used exactly when no further window fits and in the final window. The oracle contract of the mass-matrix strategy is checked on the real DiagAdaptStrategy (update_estimators counts a draw iff it is good, switch swaps and empties).',
+   note='as C06; the low-rank strategy window (VecDeque) contract is listed as outside until built',
+   technique='SMT (z3) over symbolic execution of rustc MIR; one-step induction, differential against a reference schedule'),
 }
 NA = {
  'C04': 'statistical closed-loop claim (moments within Monte-Carlo error over >=1000 adapted draws); no bounded symbolic encoding exists for a solver to decide',
